@@ -1,24 +1,99 @@
-"""Per-property plan: which Engine V units and which Engine K harnesses decide each property.
+"""Per-property plan: which Engine V units, source scans and Engine K harnesses decide each property.
 
-V obligations are attached to properties by the `// @ob Cxx name` tags in the contract templates, so nothing
-about V is listed here except the unit names.  K harness names refer to functions in /verif/kani/harness/*.rs.
+V obligations are attached to properties by the `// @ob Cxx name` tags in the contract templates (and on the shim
+preconditions in the prelude), so nothing about V is listed here except the unit names.  K harness names refer to
+functions in /verif/kani/harness/*.rs; they are BOUNDED stand-ins unless marked loop-free/full-domain in DESIGN.md.
 """
 
+V = ['arena']
+
 PLAN = {
-    # id: dict(v_units, k_quick, k_thorough, level, title)
-    'C01': dict(v=['arena'], k_quick=[], k_thorough=[], level='proof'),
-    'C04': dict(v=['arena'], k_quick=[], k_thorough=[], level='proof'),
+    'C01': dict(v=V, level='proof',
+                k_quick=['k_fast_448', 'k_dealloc'],
+                k_thorough=['k_fast_448_m8', 'k_fast_448_m16', 'k_fast_64_m2', 'k_fast_64_m4', 'k_fast_empty', 'k_dealloc_m8'],
+                technique='deductive verification (Verus) of the real allocation functions against placement contracts + representation invariant; Kani memory-level stand-in',
+                explanation='Every allocating function (fast path, dispatcher, new_chunk, dealloc, shrink, grow, rewind regions, reset) is verified against a contract that '
+                            'places the returned block inside [data, old finger) of a chunk held in the ledger, below the footer, with the frame "only the finger of the current '
+                            'chunk changed"; the representation invariant (cur_inv + list_wf) is established by the constructors and preserved by every operation, and the step '
+                            'lemma lemma_list_ptr_step lifts this to all histories. Unbounded: all sizes, alignments, MIN_ALIGN, chunk addresses. The Kani harnesses add CBMC '
+                            'pointer checks on real memory for two chunk geometries (bounded).'),
+    'C02': dict(v=V, level='model_checking',
+                k_quick=['k_fill_with_order'],
+                k_thorough=['k_rewind_keeps_inner_allocs'],
+                technique='Verus proves the address ranges of every copy (source/destination/non-overlap/length); byte contents are checked by bounded Kani harnesses',
+                explanation='Placement half is proof (preconditions of copy_nonoverlapping/copy shims in shrink/grow, frame clauses); the byte-level half (read-back, preserved '
+                            'prefix, untouched neighbour, closure call order) is BOUNDED model checking: blocks of at most 8 bytes, slices of at most 3 elements, one 448-byte chunk.'),
+    'C03': dict(v=V, scans=['c03'], level='proof',
+                k_quick=['k_list_1'],
+                k_thorough=['k_list_0', 'k_list_2', 'k_list_3'],
+                technique='Verus: ledger ghost state of the global allocator; dealloc shim requires the recorded (ptr, layout); unbounded chunk-list induction (ghost depth)',
+                explanation='new_chunk records exactly the (ptr, layout) the allocator returned; every global dealloc call is proved to pass a block that is in the ledger with '
+                            'that layout and removes it (so never twice); dealloc_chunk_list is verified with a loop invariant over a list of ANY length to return exactly the '
+                            'blocks of the list and to stop at the sentinel; Drop returns the whole list, reset all but the head; a source scan shows these are the only routes '
+                            'to the global allocator. Moves between threads and "no reference alive" are ownership facts outside the technique (C05).'),
+    'C04': dict(v=V, level='proof', k_quick=[], k_thorough=['k_fast_448_m16'],
+                technique='deductive verification (Verus, bit-vector lemmas) of alignment postconditions for all MIN_ALIGN, sizes, alignments and chunk base residues',
+                explanation='aligned(p, layout.align) and aligned(p, MIN_ALIGN) are postconditions of the fast path, shrink, grow and the dispatchers; aligned(finger, MIN_ALIGN) '
+                            'is part of the invariant, established by the constructors (needs the alignment of the static sentinel, extracted from its #[repr]) and new_chunk, and '
+                            'preserved by dealloc/shrink/grow/rewind/reset. The constructors are proved to return only if MIN_ALIGN is a power of two <= 16.'),
+    'C06': dict(v=V, level='proof', k_quick=['k_list_1'], k_thorough=['k_list_0', 'k_list_2', 'k_list_3'],
+                technique='Verus contract of the real reset() over an unbounded chunk list + fast-path completeness',
+                explanation='reset() is verified: chunk-less => nothing changes; otherwise finger == footer (iteration slice empty, chunk_capacity == usable), prev == sentinel, '
+                            'ledger == old ledger minus the older chunks, limit and footer unchanged, accounting reset; the invariant holds again so the contract applies to any '
+                            'later history. fast.complete (Some <=> fits) gives "hands out the full capacity again without the global allocator".'),
+    'C07': dict(v=V, level='proof', k_quick=['k_limit_remaining'], k_thorough=[],
+                technique='Verus contracts on the limit arithmetic and on fast-path completeness; the iterator pipeline of the slow path is a bounded Kani stand-in',
+                explanation='allocation_limit_remaining / chunk_fits_under_limit are verified against the property (headroom is Some while a limit is set, zero when over); the '
+                            'fast path is complete and independent of the limit; new_chunk accounts exactly the usable bytes. That the slow path reaches new_chunk only for admitted '
+                            'candidates is checked by Kani on the real function (bounded: one request, concrete request sizes, symbolic limit, nondeterministic refusals).'),
+    'C08': dict(v=V, level='proof', k_quick=['k_list_1'], k_thorough=['k_list_0', 'k_list_2', 'k_list_3'],
+                technique='Verus: accounting clause in the list invariant, induction lemma, contracts of the two getters',
+                explanation='list_wf carries allocated_bytes(a) == allocated_bytes(prev) + usable(a); lemma_accounting proves allocated_bytes == total bytes held - n*FOOTER_SIZE by '
+                            'induction on a list of any length; new_chunk and reset establish the clause, no other function writes the field (frame clauses); '
+                            'allocated_bytes_including_metadata is verified to return total_held (Iterator::count is an assumed shim).'),
+    'C09': dict(v=V, level='proof', k_quick=[], k_thorough=[],
+                technique='Verus: absence of overflow/panic obligations on every try_ path, Err => frame; slow-path loop bounded by Kani',
+                explanation='Every arithmetic operation, debug_assert!, unwrap and panic shim on the try_ paths is a discharged obligation for all inputs; Err/None postconditions '
+                            'state that nothing changed; infallible wrappers return only what the fallible twin returns in Ok. Termination of the halving loop and allocator-failure '
+                            'injection are checked by Kani (bounded, see finding F8 for the zero-size corner).'),
+    'C10': dict(v=V, level='proof', k_quick=['k_list_1'], k_thorough=['k_list_2', 'k_list_3'],
+                technique='Verus contracts of ChunkRawIter::next / as_raw_parts over the unbounded list + no-padding clause of the fast path',
+                explanation='next() is verified to yield [finger, footer) of the current chunk and to step to prev, stopping exactly at the sentinel, for a list of any length; '
+                            'fast.no_padding shows uniform allocations are adjacent. The safe iterator is a thin wrapper over the raw one (not extracted; Kani compares them, bounded).'),
+    'C11': dict(v=V, level='proof', k_quick=['k_rewind', 'k_try_fill_releases', 'k_rewind_keeps_inner_allocs'], k_thorough=['k_rewind_m16'],
+                technique='Verus on the mechanically extracted Err arms of alloc_try_with/try_alloc_try_with + dealloc contract; ownership of the error value by Kani',
+                explanation='The rewind regions are verified against rewind_post (not last => nothing changes; same chunk => finger restored; new chunk => whole chunk free again). '
+                            'Exactly-once delivery of E and "initialiser not run when the reservation fails" are checked by Kani with a drop-counting error type (bounded).'),
+    'C12': dict(v=V, level='proof', k_quick=[], k_thorough=['k_dealloc'],
+                technique='Verus contracts of dealloc/shrink/grow for arbitrary old/new layouts; trait glue and contents by Kani',
+                explanation='Result fits the new layout (size, both alignments), Err => nothing changed, in-place moves stay inside the old block and never overlap source and '
+                            'destination, fresh blocks are disjoint from the old one; deallocate of a non-last block is a no-op. The Allocator glue (slice length, zeroed tail) and '
+                            'byte preservation are bounded Kani harnesses.'),
+    'C18': dict(v=V, level='proof', k_quick=[], k_thorough=[],
+                technique='Verus: capacity postcondition of the constructor, chunk_capacity spec + fast-path completeness; growth policy by Kani; RawVec arithmetic by Verus',
+                explanation='try_with_min_align_and_capacity(c) is verified to return an arena whose current chunk has finger - data >= c; chunk_capacity returns finger - data and '
+                            'fast.complete says every request with rup(size) <= that fits. "New chunk >= 2x previous" is a bounded Kani check of the real slow path.'),
+    'C19': dict(v=V, level='proof', k_quick=[], k_thorough=[],
+                technique='Verus: checked arithmetic obligations for all sizes up to usize::MAX; Kani on the generic entry points at the refusing side',
+                explanation='round_up_to/layout_from_size_align/new_chunk_memory_details/grow are verified to refuse exactly the unrepresentable sizes and never to wrap; on success the '
+                            'reserved extent equals the request.'),
+    'C20': dict(v=V, scans=['c20'], level='proof', k_quick=[], k_thorough=['k_fast_empty'],
+                technique='Verus write-permission obligations (the shared sentinel is never written) + frame clauses + source scan for global state; sequential argument only',
+                explanation='Every footer write goes through a shim whose precondition is "not the static sentinel"; all of them are discharged, so no arena operation writes shared '
+                            'memory; frame clauses confine each operation to its own Bump value, its own chunks and the allocator ledger; a scan shows EMPTY_CHUNK is the only static. '
+                            'Thread schedules themselves are not modelled (assumption: disjoint footprints commute; the global allocator is thread-safe).'),
 }
 
 COMMON_ASSUMPTIONS = [
     '64-bit usize (global size_of usize == 8); 32-bit targets are out of scope',
-    'rewrite table R1..R12 of DESIGN.md section 2.1 (pointers are their addresses; Cell<X> is X; footers live in a ghost map '
-    'indexed by address; unsafe blocks are plain blocks whose safety conditions are the requires of the shims)',
+    'rewrite table R0..R14 of DESIGN.md section 2.1 (pointers are their addresses; Cell<X> is X; footers live in a ghost map '
+    'indexed by address; unsafe blocks are plain blocks whose safety conditions are the requires of the shims; Option/Result combinators are their defining match)',
     'the global allocator obeys the contract of the `alloc`/`dealloc` shims (fresh, aligned, disjoint blocks; null on failure)',
     'the linker places static EMPTY_CHUNK at an address aligned to the alignment of its type (EMPTY_ALIGN extracted from the source); '
     'nothing else is assumed about that address',
     'std specs assumed in the prelude: Layout::from_size_align, usize::{next_power_of_two,is_power_of_two,abs_diff}, '
     'Result::unwrap_or_else; vstd specs of checked_add/checked_mul/wrapping_sub/Ord::{max,cmp}/Option combinators',
     'debug-assertions build is the reference for "panics" (debug_assert! is a proof obligation, overflow is an obligation)',
-    'soundness of Verus 0.2026.09.13 / Z3',
+    'the sum of the sizes of blocks held cannot exceed usize::MAX (address-space argument) where new_chunk adds to allocated_bytes',
+    'soundness of Verus 0.2026.09.13 / Z3, Kani 0.68 / CBMC 6.11',
 ]
